@@ -33,6 +33,7 @@ def types():
     if _TYPES is None:
         _TYPES = {t.__name__: t for t in structures_types}
         _TYPES["TPM2B_ENCRYPTED_PARAM"] = TPM2B_ENCRYPTED_PARAM
+        by_name = {t.__name__: t for t in command_response_types}
         # area types: same keys as the snapshot ("#<table>" suffix where two types share a name)
         from tpmstream.spec.structures.constants import TPM_CC
         seen = {}
@@ -48,6 +49,8 @@ def types():
                         key = key + "#" + fam
                     seen[id(t)] = key
                     _TYPES[key] = t
+        for n, t in by_name.items():
+            _TYPES.setdefault(n, t)      # area types no table refers to (any more) are still decodable by name
         for t in (Command, Response, CommandResponseStream):
             _TYPES[t.__name__] = t
     return _TYPES
